@@ -210,6 +210,32 @@ Theorem C10_skipzero_summary_matches_details :
     map fst (rp_summary (show_text F E o st)) = map b_key (rp_blocks (show_text F E o st)).
 Proof. exact summary_matches_details. Qed.
 
+(* --- the command lines ---------------------------------------------------------------------------- *)
+(* `python -m line_profiler [-u U] [-z] [-t] [-m] X.lprof` (main = load_stats + show_text on the
+   loaded timings): every key of the pickled statistics has exactly one block (under -z those
+   with hits) made from its own timings, and with -m one summary line per block, same order. *)
+Theorem C10_viewer_cli_every_function_once :
+  forall (unit u : Q) (z t m : bool) (E : env) (st : stats),
+    NoDup (map fst st) ->
+    let r := viewer_cli_report unit u z t m E st in
+    NoDup (map b_key (rp_blocks r))
+    /\ (forall k tm, In (k, tm) st -> (In k (map b_key (rp_blocks r)) <-> (z = false \/ total_hits tm <> 0)))
+    /\ (forall b, In b (rp_blocks r) ->
+          exists tm, In (b_key b, tm) st /\ show_func (py_formatter unit (Some u)) E z (b_key b) tm = Some b)
+    /\ (m = true -> map fst (rp_summary r) = map b_key (rp_blocks r)).
+Proof. exact viewer_cli_every_function_once. Qed.
+
+(* `kernprof -l -v [-u U] [-z]`: the same for the report printed by the kernprof process *)
+Theorem C10_kernprof_view_every_function_once :
+  forall (unit u : Q) (z : bool) (E : env) (st : stats),
+    NoDup (map fst st) ->
+    let r := kernprof_view_report unit u z E st in
+    NoDup (map b_key (rp_blocks r))
+    /\ (forall k tm, In (k, tm) st -> (In k (map b_key (rp_blocks r)) <-> (z = false \/ total_hits tm <> 0)))
+    /\ (forall b, In b (rp_blocks r) ->
+          exists tm, In (b_key b, tm) st /\ show_func (py_formatter unit (Some u)) E z (b_key b) tm = Some b).
+Proof. exact kernprof_view_every_function_once. Qed.
+
 (* the hypotheses are satisfiable, and this is what the model prints for a two-function report *)
 Theorem C10_nonvacuous :
   NoDup (map fst ex_st)
